@@ -15,8 +15,10 @@ from hypothesis import strategies as st
 from ..ref import pms_version as R
 from . import versions as V
 
-CATS = ("c", "dev-a", "c1")
-PKGS = ("p", "pkg", "p-q", "p1")
+# names include prefixes of one another followed by every separator PMS allows ('+' '-' '.' '_' and digits):
+# "cat/pkg" compared as one string orders them differently from (category, package)
+CATS = ("c", "dev-a", "c1", "dev", "dev-libs", "dev+x", "dev.y", "dev_z")
+PKGS = ("p", "pkg", "p-q", "p1", "p+", "p_q", "p-q-r")
 SLOTS = ("0", "1", "2.1", "a_b")
 REPOS = ("gentoo", "r", "over-lay")
 FLAGS = ("a", "b", "c", "foo")
@@ -135,8 +137,8 @@ def atom_fields(draw):
     f = {
         "blk": draw(st.sampled_from(["", "", "", "!", "!!"])),
         "op": op,
-        "cat": draw(st.sampled_from(CATS + ("c", "c"))),
-        "pkg": draw(st.sampled_from(PKGS + ("p", "p"))),
+        "cat": draw(st.sampled_from(CATS + ("c",) * 6)),
+        "pkg": draw(st.sampled_from(PKGS + ("p",) * 5)),
         "ver": None,
         "rev": None,
         "slot": None,
@@ -256,35 +258,56 @@ def atom_variant(draw, f):
     return normalise(f), normalise(g)
 
 
-@st.composite
-def equal_spelling(draw, base):
-    """(ver, rev) that PMS considers equal to `base` but (usually) spelled differently"""
+def _num_spellings(n, omitted_ok=False):
+    """other spellings of the same integer: leading zeros; for 0 where the number may be omitted also ''"""
+    v = int(n) if n else 0
+    out = {str(v), "0" + str(v), "00" + str(v)}
+    if omitted_ok and v == 0:
+        out |= {"", "0", "00"}
+    out.discard(n)
+    return sorted(out)
+
+
+def split_version(ver):
     import re
 
-    ver, rev = base
     m = re.match(r"^(\d+(?:\.\d+)*)([a-z]?)((?:_[a-z]+\d*)*)$", ver)
     nums = m.group(1).split(".")
-    sufs = re.findall(r"_[a-z]+\d*", m.group(3))
-    kind = draw(st.integers(0, 4))
-    if kind == 0:
-        nums[0] = draw(st.sampled_from(["0" + nums[0], "00" + nums[0], nums[0].lstrip("0") or "0"]))
-    elif kind == 1:
-        cand = [i for i in range(1, len(nums)) if nums[i].startswith("0")]
-        if cand:
-            i = draw(st.sampled_from(cand))
-            nums[i] = draw(st.sampled_from([nums[i] + "0", nums[i] + "00", (nums[i].rstrip("0") or "0")]))
-        else:
-            nums[0] = "0" + nums[0]
-    elif kind == 2 and sufs:
-        i = draw(st.integers(0, len(sufs) - 1))
-        t = re.match(r"_([a-z]+)(\d*)", sufs[i])
-        n = t.group(2)
-        sufs[i] = "_" + t.group(1) + draw(st.sampled_from(["0" + n if n else "0", "00" + n, (n.lstrip("0") if n.strip("0") else "")]))
-    else:
-        r = R.rev_int(rev)
-        rev = draw(st.sampled_from([None, "0", "00"] if r == 0 else [str(r), "0" + str(r), "00" + str(r)]))
-    out = ".".join(nums) + m.group(2) + "".join(sufs), rev
-    assert R.vcmp(ver, base[1], out[0], out[1]) == 0, (base, out)
+    sufs = [list(re.match(r"_([a-z]+)(\d*)", x).groups()) for x in re.findall(r"_[a-z]+\d*", m.group(3))]
+    return nums, m.group(2), sufs
+
+
+def join_version(nums, letter, sufs):
+    return ".".join(nums) + letter + "".join(f"_{t}{n}" for t, n in sufs)
+
+
+def spelling_edits(ver, rev):
+    """all single-position respellings of (ver, rev) that PMS considers the same version: first component, every later
+    component with a leading zero (trailing zeros), every suffix number (leading zeros, omitted vs 0), the revision"""
+    nums, letter, sufs = split_version(ver)
+    out = []
+    for alt in _num_spellings(nums[0]):
+        out.append((join_version([alt] + nums[1:], letter, sufs), rev))
+    for i in range(1, len(nums)):
+        if nums[i].startswith("0"):
+            for alt in {nums[i] + "0", nums[i] + "00", nums[i].rstrip("0") or "0"} - {nums[i]}:
+                out.append((join_version(nums[:i] + [alt] + nums[i + 1:], letter, sufs), rev))
+    for i, (t, n) in enumerate(sufs):
+        for alt in _num_spellings(n, omitted_ok=True):
+            out.append((join_version(nums, letter, sufs[:i] + [[t, alt]] + sufs[i + 1:]), rev))
+    for alt in _num_spellings(rev or "", omitted_ok=True):
+        out.append((ver, alt if alt != "" else None))
+    return sorted(set(out), key=repr)
+
+
+@st.composite
+def equal_spelling(draw, base):
+    """(ver, rev) that PMS considers equal to `base` but spelled differently (one or two positions respelled)"""
+    ver, rev = base
+    out = draw(st.sampled_from(spelling_edits(ver, rev)))
+    if draw(st.integers(0, 3)) == 0:
+        out = draw(st.sampled_from(spelling_edits(*out)))
+    assert R.vcmp(ver, rev, out[0], out[1]) == 0, (base, out)
     return out
 
 
@@ -405,3 +428,28 @@ def grid_neighbours(idx):
         for j in range(len(GRID_DIMS[k])):
             if j != idx[d]:
                 yield idx[:d] + (j,) + idx[d + 1:]
+
+
+# ---- bounded universes: numeric spellings, related names ---------------------------------------------------------
+SPELL_BASES = [(n + l + sf, r)
+               for n in ("1.2", "1.02", "0.1", "10")
+               for l in ("", "a")
+               for sf in ("", "_p", "_p0", "_p1", "_rc10", "_beta2_p20200101", "_alpha_pre7")
+               for r in (None, "1", "10")]
+
+
+def spelling_family(base, depth=1):
+    """base plus its respellings with at most `depth` positions changed (all PMS-equal)"""
+    fam = {base}
+    frontier = {base}
+    for _ in range(depth):
+        nxt = set()
+        for v in frontier:
+            nxt.update(spelling_edits(*v))
+        frontier = nxt - fam
+        fam |= nxt
+    return sorted(fam, key=repr)
+
+
+NAME_CATS = ("dev", "dev-libs", "dev+x", "dev.y", "dev_z", "dev1", "de", "x11", "x11-libs", "X11")
+NAME_PKGS = ("foo", "foo-bar", "foo+", "foo_x", "foo1", "fo", "foo-bar-baz", "Foo")
